@@ -303,30 +303,25 @@ func (b Branch) CopyEmpty() *Branch {
 }
 
 func (b *Branch) IntersectHash(other *Branch) *bitcoin.Hash32 {
-	current := b
-	for {
-		if current.parent == nil {
-			break
+	// Find the first branch in the ancestry of b (including b) that is also in the ancestry of other.
+	// The intersection is the lower of the two points at which the ancestries leave that branch. This
+	// covers ancestor, descendant, sibling and cousin branches.
+	var link *Branch // child of current in the ancestry of b
+	for current := b; current != nil; current = current.parent {
+		var otherLink *Branch // child of otherCurrent in the ancestry of other
+		for otherCurrent := other; otherCurrent != nil; otherCurrent = otherCurrent.parent {
+			if otherCurrent == current {
+				if link == nil && otherLink == nil {
+					return nil // same branch
+				}
+				if otherLink == nil || (link != nil && link.parentHeight <= otherLink.parentHeight) {
+					return &link.firstHeader.PrevBlock
+				}
+				return &otherLink.firstHeader.PrevBlock
+			}
+			otherLink = otherCurrent
 		}
-
-		if current.parent == other {
-			return &current.firstHeader.PrevBlock
-		}
-
-		current = current.parent
-	}
-
-	current = other
-	for {
-		if current.parent == nil {
-			break
-		}
-
-		if current.parent == b {
-			return &current.firstHeader.PrevBlock
-		}
-
-		current = current.parent
+		link = current
 	}
 
 	return nil
